@@ -263,11 +263,16 @@ func (r *Runtime) builtinJSON_stringify(call FunctionCall) Value {
 			}
 		} else {
 			if s, ok := spaceValue.(String); ok {
-				str := s.String()
-				if len(str) > 10 {
-					ctx.gap = str[:10]
-				} else {
-					ctx.gap = str
+				// the first 10 code units, not bytes
+				if s.Length() > 10 {
+					s = s.Substring(0, 10)
+				}
+				ctx.gap = s.String()
+				for i := 0; i < len(ctx.gap); i++ {
+					if ctx.gap[i] >= utf8.RuneSelf {
+						ctx.allAscii = false
+						break
+					}
 				}
 			}
 		}
